@@ -12,6 +12,7 @@ WITNESS = (
     "America/Sao_Paulo", "Africa/Casablanca", "Europe/Dublin", "Africa/Monrovia",
 )
 WITNESS_FIXED = (-(23 * 3600 + 59 * 60), -60, 0, 19800, 23 * 3600 + 59 * 60)
+SUBMINUTE_FIXED = (3661, -17762, 19830, 59, -1)
 EXTRA_YEARS = (2100, 2400, 9990)
 
 
